@@ -2,15 +2,24 @@ _C19_MAIN = "server"
 
 PROPS["C19"] = prop(
     "exploration",
-    "rapid-generated query strings against a reference parser written from docs/API.md; normalisation image check for tags; multiset model for reserved-namespace helpers",
+    "rapid-generated query strings against a reference parser written from docs/API.md; normalisation image check for tags; multiset model for reserved-namespace helpers; "
+    "world: rapid-generated histories of {set tags} on 'me'/groups (owner, non-owner), {acc tags}, group creation with tags, {set fnd public|private} + {get fnd sub}, "
+    "account suspension/deletion and topic deletion under generated reserved/masked/rewriting namespace configurations, judged by a reference model of accounts, topics, tags and "
+    "states compared with the store, the cached tags, every {meta tags} and the answer of every search after every step",
     "query unit: strings <= 24 runes over letters, digits, space, tab, comma, quote, colon, @ + . _ - and non-ASCII letters, biased to 2-5 terms, under generated "
     "validator/authenticator configurations; non-trivial = >= 2 terms and one of {comma, quote, rewritable term}; tag units: non-trivial = >= 2 tags with a duplicate, "
-    "an invalid tag or more than the count limit / lists carrying reserved-namespace tags; distinct = distinct case by FNV-64 of its JSON",
+    "an invalid tag or more than the count limit / lists carrying reserved-namespace tags; world unit: 4 accounts with tags seeded through the store (e-mail, phone, login, org, geo "
+    "namespaces + plain), 2 tagged groups, 8-26 requests; non-trivial = >= 1 accepted tag update on an object that carries reserved tags AND >= 1 refused attempt to add/remove a "
+    "reserved tag AND >= 1 fully judged search that either returned results or was refused for a foreign masked term; distinct = distinct case by FNV-64 of its JSON",
     "Pure part: parseSearchQuery+rewriteTag are compared as multisets with a reference parser written from docs/API.md and the statement; normalizeTags against the "
-    "normalised image of its input in both directions; restrictedTagsEqual/filterRestrictedTags against a multiset model. Sampled, not exhaustive.",
+    "normalised image of its input in both directions; restrictedTagsEqual/filterRestrictedTags against a multiset model. World part: reserved tags invariant under every client "
+    "request, accepted update = normalised image exactly, refused update = no change, masked terms only if carried, results = visible objects satisfying the query, inactive objects "
+    "hidden from non-root, rewriting only under the configuration that indexes the namespace. Sampled, not exhaustive.",
     "Trusts the reference parser in harness/c19 and the validators' PreCheck as the definition of 'looks like an e-mail / phone number'. Inputs whose meaning the "
-    "documents leave open (empty quotes, quote after quote, leading/trailing comma, terms that are not valid tags or shorter than 2 runes) are counted, not judged.",
-    "5/C19", "server-pure",
+    "documents leave open (empty quotes, quote after quote, leading/trailing comma, terms that are not valid tags or shorter than 2 runes) are counted, not judged "
+    "(world: still checked for 'only visible, matching objects, no foreign masked tag'). World part trusts verifmem's FindUsers/FindTopics (mirror of the MySQL adapter) and "
+    "installs the namespace configuration (globals.immutableTagNS/maskedTagNS/validators, basic add_to_tags) the way main.go derives it.",
+    "5/C19", "server-pure+world",
     [Unit("TestC19Query", _C19_MAIN, quick=75000, thorough=1250000, shards_quick=4, shards_thorough=16),
      Unit("TestC19NormalizeTags", _C19_MAIN, quick=50000, thorough=1000000, shards_quick=2, shards_thorough=8),
      Unit("TestC19RestrictedTags", _C19_MAIN, quick=50000, thorough=1000000, shards_quick=2, shards_thorough=8),
@@ -20,5 +29,9 @@ PROPS["C19"] = prop(
      "fnd.private queries: docs say only the rewritten term is kept, the code keeps original+rewritten; both are accepted and the case is counted (note:private-query-keeps-original)",
      "a term that is not a valid tag (e.g. a:b, a quoted term containing a space) is dropped by the code; the documents do not say what such a query means, so it is not judged",
      "which tags are sacrificed when a list exceeds the count limit is not stated (the code truncates the raw list first and says so)",
-     "strings such as 'email:a b' that start with a reserved prefix but are not tags by the documented grammar are not judged by the reserved-namespace model"],
+     "strings such as 'email:a b' that start with a reserved prefix but are not tags by the documented grammar are not judged by the reserved-namespace model",
+     "world: the null value anywhere in a tag list (within the count limit) means 'clear all'; root is shown suspended and soft-deleted objects (explicit comment in replyGetSub); "
+     "the searcher is never listed; an {acc} update carrying only tags is refused (400) by the code - only 'no reserved tag changes, nothing un-normalised is stored' is judged for it",
+     "world: whether the owner of a suspended/soft-deleted group may still set its tags is not stated: only the reserved-tag invariant is judged there",
+     "world: the acknowledgement of a self-deletion may be lost on the wire (the session is stopped right after the reply is queued); the outcome is then read from the store"],
 )
